@@ -439,22 +439,62 @@ def currently_exiting_context(frame: types.FrameType) -> Optional[ExitingContext
             if not backtrack_over_load_none():
                 return None
         # offs is now the instruction right before the first LOAD_CONST.
-        # We expect this to be the last instruction that is covered
-        # by the exception handler block that unwinds to call this context's
-        # __exit__ in the exception case. Possible exceptions to that rule:
-        # - sometimes there's a SWAP before the LOAD_CONSTs
-        # - if the with stmt has no body, there might be a NOP to attach
-        #   line number information to
-        # Neither of these are covered by the exception handler block.
-        for _, end, target, *_ in _parse_exception_table(frame.f_code):
-            if end == offs or (
-                end == offs - 2 and code[offs] in (op["SWAP"], op["NOP"])
+        # Every instruction that can transfer control to that LOAD_CONST
+        # (looking through any SWAP or NOP that the compiler put in front
+        # of the call, which may be attributed to an enclosing block)
+        # lies within the body of the with block that is being exited,
+        # so the innermost with-cleanup handler it would unwind to is the
+        # one we want. We can't just look at the physically preceding
+        # instruction because the compiler is free to place an exit
+        # sequence after unrelated code and jump to it.
+        table = list(_parse_exception_table(frame.f_code))
+
+        def with_handler_covering(pos: int) -> Optional[int]:
+            visited: Set[int] = set()
+            while pos not in visited:
+                visited.add(pos)
+                for start, end, target, *_ in table:
+                    if start <= pos <= end:
+                        if (
+                            code[target] == op["PUSH_EXC_INFO"]
+                            and code[target + 2] == op["WITH_EXCEPT_START"]
+                        ):
+                            return target
+                        pos = target
+                        break
+                else:
+                    break
+            return None
+
+        predecessors: Dict[int, List[int]] = {}
+        insns = list(dis.get_instructions(frame.f_code))
+        for idx, insn in enumerate(insns):
+            if insn.opcode in dis.hasjrel or insn.opcode in dis.hasjabs:
+                predecessors.setdefault(insn.argval, []).append(insn.offset)
+            if idx + 1 < len(insns) and insn.opname not in (
+                # fmt: off
+                "RETURN_VALUE", "RETURN_CONST", "RAISE_VARARGS", "RERAISE",
+                "JUMP_FORWARD", "JUMP_BACKWARD", "JUMP_BACKWARD_NO_INTERRUPT",
+                # fmt: on
             ):
-                return ExitingContext(is_async=is_async, cleanup_offset=target)
+                predecessors.setdefault(insns[idx + 1].offset, []).append(insn.offset)
+        todo = [offs + 2]
+        seen: Set[int] = set()
+        while todo:
+            for pred in predecessors.get(todo.pop(), ()):
+                if pred in seen:
+                    continue
+                seen.add(pred)
+                if code[pred] in (op["SWAP"], op["NOP"]):
+                    todo.append(pred)
+                    continue
+                handler = with_handler_covering(pred)
+                if handler is not None:
+                    return ExitingContext(is_async=is_async, cleanup_offset=handler)
         warnings.warn(
             f"Surprise during analysis of {frame.f_code!r}: couldn't find an "
-            f"exception table entry ending at {offs} just before the call to "
-            f"__exit__ -- please file a bug",
+            f"exception table entry for the with block that ends at {offs} just "
+            f"before the call to __exit__ -- please file a bug",
             InspectionWarning,
         )
         return None
